@@ -1862,3 +1862,51 @@ def lookup_units():
 
 
 ALL.append(lookup_units)
+
+
+# ---- the store's retention / dedup wrappers pass their arguments through unchanged (C09, C02)
+def store_wrapper_units():
+    SM = P + "store.store:SqliteWorkflowStore."
+    out = []
+    specs = [("cleanup_old_processed_messages", [("max_age_hours", ("int",))], P + "operations:cleanup_old_processed_messages", "int"),
+             ("is_message_processed", [("message_id", ("str",))], P + "operations:is_message_processed", "bool"),
+             ("mark_message_processed", [("message_id", ("str",)), ("handler_type", ("opt", ("str",))), ("execution_id", ("opt", ("str",)))],
+              P + "operations:mark_message_processed", "none")]
+    for meth, params, target, rk in specs:
+        reg = queue_registry()
+
+        def callee(I, a, k, _t=target, _rk=rk):
+            """the callee's own contract is proved in its unit (operations.*); here only the call is recorded"""
+            from pyvc.typesys import fresh_value
+            res = SNone if _rk == "none" else fresh_value(I.st, I.typer, (_rk,), "callee_result", det=True)
+            I.st.emit("callee", target=_t, args=list(a), kwargs=dict(k), result=res)
+            return res
+
+        reg.contracts[target] = callee
+
+        def setup(ctx):
+            ctx.I.st.ghost["the_conn"] = SQL.new_connection(ctx.I)
+
+        def post(ctx, _params=params, _rk=rk):
+            I = ctx.I
+            calls = [e for e in ctx.st.effects if e.kind == "callee"]
+            goals = [("delegates-once", z3.BoolVal(len(calls) == 1 and ctx.exc is None))]
+            if len(calls) == 1 and ctx.exc is None:
+                a, kw = calls[0].data["args"], calls[0].data["kwargs"]
+                # positional or by keyword (the callee's parameters carry the wrapper's names): either way the same value
+                for n, (pn, _pt) in enumerate(_params):
+                    got = a[n + 1] if len(a) > n + 1 else kw.get(pn)
+                    goals.append((f"argument.{pn}-unchanged", z3.BoolVal(False) if got is None else I.ops.eq(got, ctx.args[pn])))
+                conn = a[0] if a else kw.get("conn")
+                goals.append(("on-the-store-connection", z3.BoolVal(conn is not None and getattr(conn, "oid", 0) == getattr(I.st.ghost["the_conn"], "oid", 1))))
+                if _rk != "none":
+                    goals.append(("returns-the-callee-result", I.ops.eq(ctx.result, calls[0].data["result"])))
+            return goals
+
+        out.append(Unit(prop="*", name=f"L1/SqliteWorkflowStore.{meth}", func=SM + meth, params=params,
+                        self_type=("obj", "SqliteWorkflowStore"), setup=setup, names=STATUS_NAMES, registry=reg, replayable=False,
+                        obligations=[Obl(f"C09/store-wrapper/{meth}", post, when="any"), Obl(f"C02/store-wrapper/{meth}", post, when="any")]))
+    return out
+
+
+ALL.append(store_wrapper_units)
